@@ -62,7 +62,7 @@ CLAIMED["C01"] = ("ovf-system", "exploration",
 
 CLAIMED["C02"] = ("ovf-system", "exploration",
   "end-to-end property testing of the real binaries over loopback UDP: generated histories of datagrams from several scripted applications to several scripted echo targets, multiset / ownership / label oracle; plus metamorphic segmentation testing of the datagram-in-stream framings",
-  "For each case a fresh client and server are started for one README UDP row (Shadowsocks x 7 ciphers, with a user table for the 2022 AES ciphers; VMess x 2 ciphers x tcp/tls/ws/wss/quic; Trojan x tls/wss/quic). 1..4 application sockets send a generated history of SOCKS5-UDP datagrams (sizes 0..40000 quick / 65000 thorough with protocol edges; targets addressed by IPv4 or by name) to 1..3 echo targets that answer with a reply naming themselves and repeating the payload. Oracle: every datagram a target receives equals one addressed to it, at most as often as it was sent (never truncated, merged, altered, duplicated or misdelivered); every reply an application receives is a well-formed SOCKS5-UDP datagram labelled with the replying target, answers a datagram that application sent, at most once; a datagram of at most 32 KiB must be answered within three paced attempts. All 22 UDP configurations are exercised in every run. The VMess and Trojan stream framings of datagrams are additionally decoded through FramedRead / WebSocketFramed under generated segmentations (count, boundaries and bytes preserved).",
+  "For each case a fresh client and server are started for one README UDP row (Shadowsocks x 7 ciphers, with a user table for the 2022 AES ciphers; VMess x 2 ciphers x tcp/tls/ws/wss/quic; Trojan x tls/wss/quic). 1..4 application sockets send a generated history of SOCKS5-UDP datagrams (sizes 0..40000 quick / 65000 thorough with protocol edges; targets addressed by IPv4 or by name) to 1..3 echo targets that answer with a reply naming themselves and repeating the payload. Oracle: every datagram a target receives equals one addressed to it, at most as often as it was sent (never truncated, merged, altered, duplicated or misdelivered); every reply an application receives is a well-formed SOCKS5-UDP datagram labelled with the replying target, answers a datagram that application sent, at most once; a datagram of at most 32 KiB must be answered within three paced attempts. All 22 UDP configurations are exercised in every run. empty-replies (all 22 rows in every run): a target that answers with empty datagrams must see them delivered with its label, at most once each, and a later ordinary datagram is still answered (VMess, which has no representation for an empty datagram, is only required to keep the session working). The VMess and Trojan stream framings of datagrams are additionally decoded through FramedRead / WebSocketFramed under generated segmentations (count, boundaries and bytes preserved).",
   "Trusted: loopback UDP does not lose paced datagrams (loss alone is never a violation; non-delivery is confirmed on three fresh clusters); reference encoder for the framing sub-check.", "DESIGN.md 5/C02")
 
 CLAIMED["C08"] = ("ovf-system", "fault_enumeration",
